@@ -532,6 +532,46 @@ func boundaryCases(emit func(*Case)) {
 	}
 }
 
+// senShapeCases: documents whose SEN-tight text (T.senTight) puts a bare word or a number directly
+// in front of `[` / `{` and directly behind `]` / `}`, with comments and single-quoted strings; the
+// targets report every element, so a dropped or shifted token shows in a path or a value.
+func senShapeCases(emit func(*Case)) {
+	c := func(k string) Frag { return Frag{K: 'c', Key: k} }
+	n := func(i int) Frag { return Frag{K: 'n', N: i} }
+	w := Frag{K: 'w'}
+	d := Frag{K: 'd'}
+	obj := func(kv ...any) *T {
+		t := &T{K: 'o'}
+		for i := 0; i < len(kv); i += 2 {
+			t.Keys = append(t.Keys, kv[i].(string))
+			t.Kids = append(t.Kids, kv[i+1].(*T))
+		}
+		return t
+	}
+	i := func(v int64) *T { return tInt(v) }
+	docs := []*T{
+		tArr(tStr("abc"), tArr(i(1), i(2)), tStr("def")),                                  // [abc[1 2]def]
+		tArr(i(1), tArr(i(2)), i(3), obj("a", tStr("b")), i(4)),                           // [1[2]3{a:b}4]
+		tArr(tStr("abc"), obj("x", i(1)), tStr("d"), obj(), tStr("e"), tArr()),            // [abc{x:1}d{}e[]]
+		tArr(tBool(true), tArr(i(1)), tNull(), obj(), tBool(false), tArr(tArr())),         // [true[1]null{}false[[]]]
+		tArr(tFlt("1.5"), tArr(i(2)), tBig("123456789012345678901234567890"), tArr(i(3))), // numbers in front of [
+		tArr(tStr("it's"), tArr(i(1)), tStr("x y"), obj("k", tStr("v w"))),                // quoted strings against brackets
+		tArr(tStr("a"), tStr("b"), tStr("c"), tStr("d"), i(1), i(2), i(3)),                // comments as separators
+		obj("a", tArr(tStr("abc"), tArr(tStr("x")), tStr("y")), "b", tStr("word")),        // inside an object
+		tArr(tArr(tStr("abc"), tArr(tStr("de"), tArr(tStr("f"))))),                        // nested
+		tArr(tStr("abc"), tArr(tArr(i(1), i(2))), tStr("def"), tArr(i(3))),
+	}
+	targets := [][]Target{
+		{{w}}, {{w, w}}, {{d, w}}, {{d}}, {{n(0)}}, {{n(1)}}, {{n(2)}}, {{n(1), n(0)}}, {{n(1), n(1)}}, {{d, n(0)}}, {{d, n(1)}},
+		{{n(0)}, {n(2)}}, {{n(2)}, {n(1), n(0)}}, {{c("a"), w}}, {{c("a"), n(1), n(0)}}, {{w, w, w}},
+	}
+	for _, doc := range docs {
+		for _, ts := range targets {
+			emit(&Case{Doc: doc, Targets: ts, Stream: "senshape"})
+		}
+	}
+}
+
 // quoteCases: strings and member names that hold the OTHER quote character (a double quote inside
 // a SEN single-quoted string, a single quote inside a double-quoted one), every place a string can
 // stand in, under targets that report it as a value, inside a collected container and as a path.
